@@ -273,7 +273,7 @@ def oauth2Start : H PUnit := do
   putS .oauthState c.req.fresh
   let params : Bytes :=
     (if c.req.rm then lit "rm=true;" else []) ++ (if c.req.redir.isEmpty then [] else lit "redir=" ++ c.req.redir)
-  if params.isEmpty then delS .oauthParams else putS .oauthParams params
+  if params.isEmpty && !c.req.rmOther then delS .oauthParams else putS .oauthParams params
   act (.respond (.redirect (lit "provider") none none))
 
 /-- `oauth2.End`. -/
@@ -327,7 +327,7 @@ def oauth2End : H PUnit := do
     delS .halfauth
     if wantRm then modify fun c => { c with values := true, rmValue := true }
     if ← fireAfter .oauth2 then stop .done else
-    let target := if redirP.isEmpty then root else redirP
+    let target := if Redirect.guard redirP then redirP else root
     redirect target (some .oauth2LoginOK) none
 
 /-! ### Two-factor -/
